@@ -2,6 +2,7 @@
 import z3
 
 from pvc.core import Contract, LoopSpec
+from contracts import replay_dynmat as RD
 from pvc.cexec import tdiv
 from pvc.spec import RecSum
 from contracts.c_dynmat import FC0, NSV, NCELL, PI
@@ -106,7 +107,7 @@ def ij_contract():
 
     def ens(V):
         return cells(V, NCELL)
-    return Contract(F, "transform_dynmat_to_fc_ij", shapes=SH, macros={"PI": PI}, requires=req, ensures=ens, modifies=("fc",),
+    return Contract(F, "transform_dynmat_to_fc_ij", replay_fn=RD.replay_d2f, shapes=SH, macros={"PI": PI}, requires=req, ensures=ens, modifies=("fc",),
                     derived=DERIVED, loops={0: LoopSpec(inv_k, unfold=unfold_k), 1: LoopSpec(inv_l, unfold=unfold_l)}, abstract_mul=True)
 
 
@@ -145,6 +146,6 @@ def driver_contract():
 
     def ens(V):
         return cells(V, lambda a, b: z3.BoolVal(True))
-    return Contract(F, "dym_transform_dynmat_to_fc", shapes=SH, macros={"PI": PI}, requires=req, ensures=ens, modifies=("fc",),
+    return Contract(F, "dym_transform_dynmat_to_fc", replay_fn=RD.replay_d2f, shapes=SH, macros={"PI": PI}, requires=req, ensures=ens, modifies=("fc",),
                     derived=DERIVED, loops={0: LoopSpec(fill=True), 1: LoopSpec(inv_ij), 2: LoopSpec(inv_i), 3: LoopSpec(inv_j)},
                     use_contracts={"transform_dynmat_to_fc_ij"}, abstract_mul=True)
